@@ -235,9 +235,13 @@ impl<'a> PreparedAccessor<'a> {
 
 impl<'a> FieldAccessor for PreparedAccessor<'a> {
     fn get_str_at(&self, field: &str, index: usize) -> Option<&str> {
-        self.columns
-            .get(field)
-            .and_then(|col| col.get_str_at(index))
+        let col = self.columns.get(field)?;
+        // Typed bool columns carry no string bytes: read them as the literals
+        // the memtable compares against ("true" / "false").
+        col.get_str_at(index).or_else(|| {
+            col.get_bool_at(index)
+                .map(|b| if b { "true" } else { "false" })
+        })
     }
 
     fn get_i64_at(&self, field: &str, index: usize) -> Option<i64> {
